@@ -129,6 +129,41 @@ theorem validOK_consensus_rules (len) (ms : Ms)
       · cases ctx <;> simp [Ctx.CONSENSUS, ValidationParams.CONSENSUS] at hb
       · simpa using hb
 
+theorem flagOK_consensus_multi (m : Ms) (h : flagOK ctx.CONSENSUS m = true) :
+    multiAllowed ctx m = true := by
+  cases ctx <;> cases m <;>
+    simp_all [flagOK, Ctx.CONSENSUS, ValidationParams.CONSENSUS, multiAllowed, isTap]
+
+theorem validOK_consensus_multi (ms : Ms) (h : validOK env K ctx ctx.CONSENSUS ms = true) :
+    ruleMulti ctx ms = true := by
+  unfold validOK at h
+  cases hty : typeOf ms with
+  | none => simp [hty] at h
+  | some ty =>
+    simp only [hty, Bool.and_eq_true, nonTopOK, nodesOK, List.all_eq_true] at h
+    simp only [ruleMulti, everyNode_eq, List.all_eq_true]
+    exact fun m hm => flagOK_consensus_multi ctx m (h.1.1.2.1.1 m hm)
+
+theorem validOK_depth (p : ValidationParams) (ms : Ms) (h : validOK env K ctx p ms = true) :
+    depth ms ≤ p.maxRecursiveDepth := by
+  unfold validOK at h
+  cases hty : typeOf ms with
+  | none => simp [hty] at h
+  | some ty =>
+    simp only [hty, Bool.and_eq_true, nonTopOK, decide_eq_true_eq] at h
+    rw [← treeHeight_eq env ctx]; exact h.1.1.1.1.1
+
+theorem depths_le_height (t : TapT) (d0 : Nat) : ∀ d ∈ t.depths d0, d ≤ d0 + t.height := by
+  induction t generalizing d0 with
+  | leaf m => intro d hd; simp [TapT.depths] at hd; simp [TapT.height, hd]
+  | node l r ihl ihr =>
+    intro d hd
+    simp only [TapT.depths, List.mem_append] at hd
+    simp only [TapT.height]
+    rcases hd with hd | hd
+    · have := ihl (d0 + 1) d hd; omega
+    · have := ihr (d0 + 1) d hd; omega
+
 theorem sane_le_consensus : (ctx : Ctx) → ctx.SANE.le ctx.CONSENSUS = true
   | .bare => by decide
   | .legacy => by decide
